@@ -16,11 +16,17 @@ pub mod c_wfa;
 pub mod qosref;
 pub mod c_qos;
 pub mod c_codec;
+#[cfg(feature = "security")]
+pub mod c_crypto;
 pub mod c_plcdr;
 #[cfg(feature = "security")]
 pub mod c_auth;
+#[cfg(feature = "security")]
+pub mod c_access;
 pub mod hostile;
 pub mod c_hostile;
+pub mod stk;
+pub mod c_stack;
 
 use std::path::PathBuf;
 
@@ -59,12 +65,17 @@ pub fn main_entry() -> i32 {
     "C06" => c_hostile::run_c06(&args),
     "C08" => c_api::run_c08(&args),
     "C10" => c_qos::run_c10(&args),
+    "C11" => c_stack::run_c11(&args),
     "C14" => c_codec::run_c14(&args),
     "C15" => c_plcdr::run_c15(&args),
     #[cfg(feature = "security")]
     "C19" => c_auth::run_c19(&args),
+    #[cfg(feature = "security")]
+    "C18" => c_access::run_c18(&args),
     "C20" => c_wfa::run_c20(&args),
     "C09" => c_api::run_c09(&args),
+    #[cfg(feature = "security")]
+    "C16" => c_crypto::run_c16(&args),
     other => {
       eprintln!("unknown check {other}");
       2
